@@ -101,15 +101,18 @@ Definition ring_step (r : ring) (p : rpc) : ring * rpc * list revt :=
 Record fsig := mkFs { fs_state : bool;      (* _state (0/1) *)
                       fs_flag : bool }.     (* _signal.signaled *)
 Inductive which := Enq | Deq.
-Inductive fsop := FSet1 | FSet2 | FReset1 | FReset2 | FWait1 | FWait2.
+Inductive fsop := FSet1 | FSet2 | FReset1 | FReset2 | FReset3 | FWait1 | FWait2.
 
-(* one step of a FastSignal operation: new signal, Some next micro-op / None = returned *)
-Definition fs_step (g : fsig) (o : fsop) : fsig * option fsop :=
+(* one step of a FastSignal operation: new signal, Some next micro-op / None = returned.
+   [fx] = the code after fixes/C10/02 (reset() re-checks _state after the inner reset);
+   [fx = false] is the code as it was, kept for the refutation theorem only. *)
+Definition fs_step (fx : bool) (g : fsig) (o : fsop) : fsig * option fsop :=
   match o with
   | FSet1 => (mkFs true (fs_flag g), if fs_state g then None else Some FSet2)     (* testAndSet(_state) == 0 ? *)
   | FSet2 => (mkFs (fs_state g) true, None)                                       (* _signal.set() *)
   | FReset1 => (mkFs false (fs_flag g), if fs_state g then Some FReset2 else None) (* swap(_state,0) == 1 ? *)
-  | FReset2 => (mkFs (fs_state g) false, None)                                    (* _signal.reset() *)
+  | FReset2 => (mkFs (fs_state g) false, if fx then Some FReset3 else None)      (* _signal.reset() *)
+  | FReset3 => (g, if fs_state g then Some FSet2 else None)                       (* if (load(_state)) _signal.set() *)
   | FWait1 => (g, if fs_state g then None else Some FWait2)                       (* load(_state) ? *)
   | FWait2 => (g, if fs_flag g then None else Some FWait2)                        (* _signal.wait() *)
   end.
@@ -153,7 +156,7 @@ Inductive after := AStart (arg : Z) (work : nat) | AJoin | AGet.
 Inductive kont :=
 | KRunPush1 (j : job) | KRunPush2 (j : job) | KRunReset (j : job) | KRunWait (j : job) | KRunSet
 | KShrinkPush
-| KWPop1 | KWPop2 | KWReset | KWWait | KWSet (j : job).
+| KWPop1 | KWPop2 | KWReset | KWWait | KWRearm (j : job) | KWSet (j : job).
 
 Inductive pc :=
 | PIdle                                  (* client between two script operations *)
@@ -214,7 +217,10 @@ Record config := mkConfig {
   c_lazy : bool;                           (* pool created lazily by the first start *)
   c_nfut : nat;
   c_scripts : list (list (nat * cop));     (* one script per client thread; ops carry their index *)
-  c_fn : Z -> Z                            (* the started function (argument -> return value) *)
+  c_fn : Z -> Z;                           (* the started function (argument -> return value) *)
+  c_fixed : bool                           (* true: the code after fixes/C10/01+02 (what the tree is
+                                              now); false: the sleep/wake handshake as it was (only
+                                              used by the refutation theorems) *)
 }.
 
 Record state := mkState {
@@ -291,10 +297,14 @@ Definition after_push (k : kont) (b : bool) : pc :=
   | _ => PDone
   end.
 
-Definition after_pop (k : kont) (r : option job) : pc :=
+Definition after_pop (fx : bool) (k : kont) (r : option job) : pc :=
   match k with
   | KWPop1 => match r with Some j => PFs (KWSet j) Deq FSet1 | None => PFs KWReset Enq FReset1 end
-  | KWPop2 => match r with Some j => PFs (KWSet j) Deq FSet1 | None => PFs KWWait Enq FWait1 end
+  | KWPop2 => match r with
+              | Some j => if fx then PFs (KWRearm j) Enq FSet1     (* fixes/C10/01: enqueuedSignal.set() again *)
+                          else PFs (KWSet j) Deq FSet1
+              | None => PFs KWWait Enq FWait1
+              end
   | _ => PDone
   end.
 
@@ -305,6 +315,7 @@ Definition after_fs (k : kont) : pc :=
   | KRunSet => CInc
   | KWReset => PRing KWPop2 PopRdHead
   | KWWait => worker_entry
+  | KWRearm j => PFs (KWSet j) Deq FSet1
   | KWSet JNull => PDone                      (* job.proc == 0: break; _terminated = true *)
   | KWSet (JCall f n a w) => WCall f n a w
   | _ => PDone
@@ -392,12 +403,12 @@ Definition step (cfg : config) (s : state) (t : nat) (clk : bool) : state * list
       let s1 := fold_left (ghost_ring t) revs (set_ring s r') in
       let p' := match rp' with
                 | PushRet b => after_push k b
-                | PopRet r => after_pop k r
+                | PopRet r => after_pop (c_fixed cfg) k r
                 | _ => PRing k rp'
                 end in
       (goto s1 t p', map (ring_event t) revs)
   | PFs k w o =>
-      let '(g', o') := fs_step (get_fs s w) o in
+      let '(g', o') := fs_step (c_fixed cfg) (get_fs s w) o in
       let s1 := set_fs s w g' in
       match o' with
       | Some o2 => (goto s1 t (PFs k w o2), [])
